@@ -157,6 +157,57 @@ def _unwrap_passthrough(value: ir.Value) -> ir.Value:
         current = next_val
 
 
+def _dims_of(value: ir.Value) -> Optional[list[object]]:
+    shape = getattr(value, "shape", None)
+    if shape is None:
+        return None
+    dims: list[object] = []
+    for dim in shape:
+        if isinstance(dim, int):
+            dims.append(int(dim))
+            continue
+        text = str(getattr(dim, "value", dim))
+        if text in ("", "None"):
+            return None
+        dims.append(text)
+    return dims
+
+
+def _norm_meets_operand_in_place(
+    lhs_val: ir.Value, rhs_val: ir.Value, axis: int
+) -> bool:
+    """True when the norm is laid out like ``x`` with the reduced axis kept as size 1.
+
+    The reshapes between the reduction and the division decide which elements of ``x`` a
+    norm divides: ``n[:, None]`` puts the norm of row i next to row i, ``n[None, :]`` next
+    to column i.  Only the former is ``LpNormalization(axis)``.
+    """
+    current = rhs_val
+    while True:
+        node = _producer(current)
+        if getattr(node, "op_type", "") not in {"Expand", "Identity", "Cast", "CastLike"}:
+            break
+        inputs = list(getattr(node, "inputs", ()))
+        if not inputs or not isinstance(inputs[0], ir.Value):
+            break
+        current = inputs[0]
+    lhs_dims = _dims_of(lhs_val)
+    norm_dims = _dims_of(current)
+    if lhs_dims is None or norm_dims is None or len(lhs_dims) != len(norm_dims):
+        return False
+    if axis < 0:
+        axis += len(lhs_dims)
+    if not 0 <= axis < len(lhs_dims):
+        return False
+    for index, (lhs_dim, norm_dim) in enumerate(zip(lhs_dims, norm_dims)):
+        if index == axis:
+            if norm_dim != 1:
+                return False
+        elif lhs_dim != norm_dim:
+            return False
+    return True
+
+
 def _match_lpnormalization_pattern(
     lhs_val: ir.Value,
     rhs_val: ir.Value,
@@ -204,6 +255,8 @@ def _match_lpnormalization_pattern(
 
     axes = _const_axes(reduce_inputs[1]) if len(reduce_inputs) > 1 else None
     if axes is None or len(axes) != 1:
+        return None
+    if not _norm_meets_operand_in_place(lhs_val, rhs_val, int(axes[0])):
         return None
     return int(p), int(axes[0])
 
